@@ -514,7 +514,7 @@ pub fn main(args: &util::Args) {
         let _ = std::fs::remove_dir_all(&dir);
         return;
     }
-    if let Ok(rd) = std::fs::read_dir("/verif/corpus/C05") {
+    if let Ok(rd) = std::fs::read_dir(util::verif_root().join("corpus/C05")) {
         let mut ps: Vec<_> = rd.filter_map(|e| e.ok().map(|e| e.path())).collect();
         ps.sort();
         for p in ps {
